@@ -37,15 +37,24 @@ def run(chk, repo):
     chk.attempt(q2, chk, repo)
     chk.attempt(q3, chk, repo)
     chk.rule("C01-R7", "one chunk size keys both the offsets table and the row grouping (C06-Q4)", 4)
-    chk.attempt(chunk_key_agreement, chk, repo)
+    chk.attempt(chunk_key_agreement, chk, repo, covered_by="load_rpc")
     from ..records import Layouts
     chk.rule("C01-R5", "metadata pass: chunk offsets advance by the bytes actually read, for every records_per_chunk (C06-Q5)", 4)
     chk.attempt(trace_rpc, chk, repo)
+    chk.attempt(load_rpc, chk, repo)
     chk.attempt(metadata_offsets, chk, repo, Layouts(repo), covered_by="trace_rpc", rules=("C01-R5",))
     from .c01 import chunk_sizes_spec
     chk.rule("C01-R8", "metadata pass: the requests add up to the header's record count for every records_per_chunk (C06-Q6)", 2)
     chk.attempt(chunk_sizes_spec, chk, repo, covered_by="trace_rpc", rules=("C01-R8",))
     chk.count("functions", len(op.reach))
+
+
+def load_rpc(chk, repo):
+    """C06-Q8: a pixel load gives the same rows whatever records_per_chunk is: model loads over the grid of line counts x
+    records_per_chunk (smaller than, equal to, larger than the line count) x selections"""
+    from .load_rules import load_rules
+    load_rules(chk, repo, "C06-Q8", ("rows", "axis", "requests"),
+               "model loads for every records_per_chunk of the grid: same rows in the same order, one request per touched group of records_per_chunk lines", thorough=chk.tier == "thorough")
 
 
 def trace_rpc(chk, repo):
